@@ -163,6 +163,9 @@ def run(chk):
     chk.tlc('MC_ConnLifecycle', 'ConnLifecycle_quick.cfg' if quick else 'ConnLifecycle_thorough.cfg', timeout=3000)
     if not quick:
         chk.tlc('MC_ConnLifecycle', 'ConnLifecycle_single6.cfg', timeout=3000)
+        # one more thread and socket than the programs of the thorough configuration can use up with handler reconnects
+        # (9.1 M distinct states, depth 43, against 7.0 M / 37)
+        chk.tlc('MC_ConnLifecycle', 'ConnLifecycle_deep.cfg', timeout=3000)
     chk.tlc('MC_ConnLifecycle', 'ConnLifecycle_live.cfg')
     r0 = chk.tlc('MC_ConnLifecycle', 'ConnLifecycle_unfixed.cfg', must_pass=False)
     if 'DisconnectNeverRaises' not in r0.violated:
